@@ -115,7 +115,9 @@ class Scoreboard:
         sIdx = startIdx
         eIdx = endIdx
 
-        minDurationSlots = int(minDuration / self.resolution)
+        # Slots needed to cover the requested minimum: a run shorter than minDuration does not
+        # qualify because minDuration is not a whole number of slots
+        minDurationSlots = -int(-minDuration // self.resolution)
         if minDurationSlots <= 0:
             minDurationSlots = 1
 
